@@ -18,6 +18,9 @@ import (
 
 // Root is /verif (overridable for runs from a snapshot).
 func Root() string {
+	if r := os.Getenv("VERIF_EVROOT"); r != "" {
+		return r
+	}
 	if r := os.Getenv("VERIF_ROOT"); r != "" {
 		return r
 	}
